@@ -315,14 +315,15 @@ Proof.
   intros H. rewrite <- (firstn_skipn k l) in H. apply Forall_app in H. apply H.
 Qed.
 
-(* the verdict on the first k >= 4 bytes of a BOM-less text (what CEncodedStreamReader looks at) *)
-Theorem detect_nobom_prefix e c rest k : (4 <= k)%nat -> 0 < c < 128 -> Forall scalar rest ->
+(* the verdict on the first k bytes (at least the first code unit) of a BOM-less text: what
+   CEncodedStreamReader looks at *)
+Theorem detect_nobom_prefix e c rest k : (unit_size (utf_width e) <= k)%nat -> 0 < c < 128 -> Forall scalar rest ->
   nobom_defect e rest = false -> detect (firstn k (text_bytes e (c :: rest))) = Ok (e, 0%nat).
 Proof.
   intros Hk Hc Hs Hd. rewrite text_bytes_cons. unfold text_bytes at 1.
   cbn [encs flat_map]. rewrite app_nil_r, (ascii_enc _ c Hc). cbn [units_bytes flat_map]. rewrite app_nil_r.
   pose proof (text_bytes_bytes e rest Hs) as Hb.
-  destruct e; cbn [utf_width utf_endian unit_bytes nobom_defect] in *.
+  destruct e; cbn [utf_width utf_endian unit_bytes nobom_defect unit_size] in *.
   - unfold text_bytes. cbn [utf_width]. rewrite units_bytes_W8. cbn [app].
     rewrite firstn_cons_S by lia.
     apply detect_utf8_bytes; [exact Hc | apply Forall_firstn; apply encs8_nonzero; assumption].
@@ -349,7 +350,9 @@ Theorem detect_nobom_outside e c rest : 0 < c < 128 -> Forall scalar rest ->
 Proof.
   intros Hc Hs Hd.
   rewrite <- (firstn_all2 (text_bytes e (c :: rest)) (n := Nat.max 4 (length (text_bytes e (c :: rest))))) by lia.
-  apply detect_nobom_prefix; try assumption. lia.
+  apply detect_nobom_prefix; try assumption.
+  pose proof (Nat.le_max_l 4 (length (text_bytes e (c :: rest)))) as Hm.
+  assert (unit_size (utf_width e) <= 4)%nat by (destruct e; cbn; lia). lia.
 Qed.
 
 Example detect_nobom_refuted_utf8 : detect (text_bytes Utf8 [0x61; 0; 0x62]) = Ok (Utf16le, 0%nat).
